@@ -79,6 +79,12 @@ def catalogue():
     add("polynomial(x, names=x.indeterminants)", lambda x, y: numpoly.polynomial(x, names=x.indeterminants))
     add("symbols('q:3')", lambda x, y: numpoly.symbols("q:3")), add("symbols('q')", lambda x, y: numpoly.symbols("q"))
     add("variable(1)", lambda x, y: numpoly.variable(1)), add("monomial(3, dimensions='q')", lambda x, y: numpoly.monomial(3, dimensions="q"))
+    # constants whose zero terms survive under retain_coefficients=True, in the order the caller listed the terms
+    add("tonumpy(constant dict)", lambda x, y: numpy.asarray(numpoly.tonumpy(numpoly.polynomial({(1, 0): [0, 0], (0, 0): [3, 2], (0, 2): [0, 0]}))))
+    add("tonumpy(from_attributes constant)", lambda x, y: numpy.asarray(numpoly.tonumpy(numpoly.polynomial_from_attributes([(2,), (0,), (1,)], [[0, 0, 0], [4, 5, 6], [0, 0, 0]]))))
+    add("tonumpy(x - x + 3)", lambda x, y: numpy.asarray(numpoly.tonumpy(x - x + 3)))
+    add("2 ** constant", lambda x, y: numpoly.polynomial(2) ** numpoly.polynomial({(1,): 0, (0,): 3}))
+    add("isconstant", lambda x, y: (bool(numpoly.isconstant(x - x)), bool(numpoly.isconstant(x)), bool(numpoly.isconstant(numpoly.polynomial({(1,): 0, (0,): 3})))))
     add("from_attributes(names=None)", lambda x, y: numpoly.polynomial_from_attributes([(0, 1), (0, 2)], [1, 2]))
     add("from_attributes", lambda x, y: numpoly.polynomial_from_attributes(x.exponents, x.coefficients, x.names))
     add("polynomial(values)", lambda x, y: numpoly.polynomial(x.values, names=x.names))
